@@ -130,7 +130,12 @@ func VH08b_star() {
 	var bodies [][]byte
 	// one member (or none) has its own hop limit: any value (solver variable) that still admits the longest route
 	// ending at it. The limit governs what that member accepts - not what it passes on - so nothing else changes.
+	// parameter "plain" (schedule-exploring runs): no member-specific options, so that the schedules stay affordable
+	plain := verif.Param("plain", 0) == 1
 	if at := verif.Choice("own-ttl-at", len(ms)+1) - 1; at >= 0 {
+		if plain {
+			verif.Assume(false)
+		}
 		ecc := [][]int{{1, 1}, {2, 1, 2}, nil, {1, 2, 2}}[tsel][at]
 		t := verif.Int("ttl")
 		verif.Assume(verif.And(t >= ecc, t <= 255))
@@ -141,6 +146,9 @@ func VH08b_star() {
 	// one member (or none) changes a queue length once everybody is connected: its existing connections must go on
 	// delivering into (and sending from) the new queues
 	if at := verif.Choice("resize-at", len(ms)+1) - 1; at >= 0 {
+		if plain {
+			verif.Assume(false)
+		}
 		opt := []string{mangos.OptionReadQLen, mangos.OptionWriteQLen}[verif.Choice("resize-which", 2)]
 		verif.Assert(ms[at].sock.SetOption(opt, 5) == nil, lab+"/resize")
 		verif.Quiesce()
